@@ -19,5 +19,8 @@ verus! {
 //@include ghost_link_cw.rs
 //@include ghost_nfa_outs_cw.rs
 //@include ghost_ac_cw.rs
+//@include ghost_str.rs
+//@include ghost_cwl.rs
+//@include ghost_lm_sim_cw.rs
 } // verus!
 fn main() {}
